@@ -16,6 +16,12 @@
 (*           holds them at that moment, must leave every existing object as it was, and its      *)
 (*           result becomes a new object of the heap; a caller's edit must change the edited     *)
 (*           object only.                                                                         *)
+(*           Steps "raise" (a call that legitimately raises: the heap must be as before, the outcome *)
+(*           itself is outside the statement) and "cmps" (cmp over a sample idx of the universe of   *)
+(*           MAT_FILE, recorded at that point of the history: the axioms hold on the sample and    *)
+(*           every entry equals the entry of the matrix recorded in the fresh process).            *)
+(*  dscale / sscale   sizes TLC cannot enumerate: a small base pattern (rows / values, with the cmp  *)
+(*           observed between the base rows) scaled up k times; judged by the scaling law below.    *)
 (*  cmprow2  as cmprow, over a second universe (file MAT2_FILE): dicts whose keys are not strings  *)
 (* Numbers beyond TLC's integers arrive as exact binary expansions (OrderBig, tag "x").          *)
 EXTENDS OrderSess, Batch
@@ -45,6 +51,19 @@ RowVerdictOf(mat, i) ==
         ELSE IF trans # {} THEN Show2("cmp_not_transitive", Pick(trans))
         ELSE ""
 RowVerdict(i) == RowVerdictOf(Mat, i)
+\* the same clauses, by name only (for a sample matrix inside a session)
+RowClauseOf(mat, i) ==
+    LET vals == mat.vals  M == mat.M IN
+        IF RaisedRow(vals, M, i) # {} THEN "cmp_raises"
+        ELSE IF NotAntisymRow(vals, M, i) # {} THEN "cmp_not_antisymmetric"
+        ELSE IF NotPinnedRow(vals, M, i) # {} THEN "cmp_pinned_value"
+        ELSE IF NotPinnedBigRow(vals, M, i) # {} THEN "cmp_pinned_big"
+        ELSE IF NotTransRow(vals, M, i) # {} THEN "cmp_not_transitive"
+        ELSE ""
+\* one observed entry c = cmp(u, v), wherever it was observed (between neighbours of a sorted list, between key cells of
+\* neighbouring rows): what the statement pins about single entries holds there too
+PinOK(e, u, v) == e \in {-1, 0, 1} => /\ (Pinned(u, v) => e = PinnedValue(u, v))
+                                      /\ (PinnedBig(u, v) => e \in AllowedBig(u, v))
 
 \* lexicographic sign of a sequence of per-column comparisons
 RECURSIVE Lex(_, _)
@@ -64,6 +83,51 @@ OrderedBy(cc)   == \A p \in 1..Len(cc) : Lex(cc[p], 1) \in {-1, 0}
 PosOfId(rows, r) == CHOOSE i \in 1..Len(rows) : rows[i].id = r.id
 StableBy(o, cc) == \A p \in 1..Len(cc) : Lex(cc[p], 1) = 0 => PosOfId(o.rows, o.out[p]) < PosOfId(o.rows, o.out[p + 1])
 
+\* ---- scaling: sizes beyond what TLC can enumerate ---------------------------------------------------------
+\* A small base pattern (n rows / values) is scaled up: the big table holds k copies of every base row, layout "block" = the whole
+\* base k times over (rows with equal keys INTERLEAVED with the others), "each" = every base row k times in a run; row p of the
+\* big table IS base row ScSrc(p) with id p.  SCALING LAW: a big table is sorted as its base pattern is - rows p, q compare as base
+\* rows ScSrc(p), ScSrc(q) do (o.basecmp[i][j] = the cmp observed per key column between base rows i and j), so the result lists,
+\* for the tie classes of the base in ascending order, every copy of the rows of the class by ascending position: it is a
+\* permutation of the big rows in which each neighbour pair is increasing, or tied with the earlier position first.  The same for
+\* sort(xs) on k copies of a base list (no stability there: equal values are not told apart).
+ScSrc(layout, n, k, p) == IF layout = "block" THEN ((p - 1) % n) + 1 ELSE ((p - 1) \div k) + 1
+ScN(o)        == Len(o.base) * o.k
+ScRow(o, p)   == [o.base[ScSrc(o.layout, Len(o.base), o.k, p)] EXCEPT !.id = VInt(p)]
+ScRows(o)     == [p \in 1..ScN(o) |-> ScRow(o, p)]
+ScIdOf(r)     == Pay(r.id)
+\* (the id column as a key - a third key in one call - is the position itself)
+ScCmp(o, p, q) == LET bc == o.basecmp[ScSrc(o.layout, Len(o.base), o.k, p)][ScSrc(o.layout, Len(o.base), o.k, q)]
+                  IN Lex([kc \in 1..Len(o.keycols) |-> IF o.keycols[kc] = "id" THEN Sign(p - q) ELSE bc[kc]], 1)
+ScBaseBad(o)  == \E i, j \in 1..Len(o.base) : \E kc \in 1..Len(o.keycols) :
+                    o.basecmp[i][j][kc] \notin {-1, 0, 1} \/ ~PinOK(o.basecmp[i][j][kc], o.base[i][o.keycols[kc]], o.base[j][o.keycols[kc]])
+                    \/ o.basecmp[i][j][kc] # -o.basecmp[j][i][kc]
+DScaleVerdict(o) ==
+    LET NN == ScN(o) IN
+    IF ScBaseBad(o) THEN "cmp_pinned_value_in_sort"
+    ELSE IF o.raised # "" THEN "dsort_raises"
+    ELSE IF o.after # ScRows(o) THEN "dsort_operand_changed"
+    ELSE IF Len(o.out) # NN \/ {ScIdOf(o.out[p]) : p \in 1..Len(o.out)} # 1..NN \/ \E p \in 1..NN : o.out[p] # ScRow(o, ScIdOf(o.out[p])) THEN "dsort_not_a_permutation"
+    ELSE IF \E p \in 1..(NN - 1) : ScCmp(o, ScIdOf(o.out[p]), ScIdOf(o.out[p + 1])) > 0 THEN "dsort_not_ordered"
+    ELSE IF \E p \in 1..(NN - 1) : ScCmp(o, ScIdOf(o.out[p]), ScIdOf(o.out[p + 1])) = 0 /\ ScIdOf(o.out[p]) > ScIdOf(o.out[p + 1]) THEN "dsort_not_stable"
+    ELSE IF ~o.again THEN "dsort_not_idempotent"
+    ELSE IF ~o.same THEN "dsort_depends_on_earlier_calls"             \* the call was made o.reps times on the one table object
+    ELSE ""
+\* lists: base values are distinct as tagged values (NaN objects by identity); o.basecmp[i][j] = <<cmp(base[i], base[j])>>
+ScIdx(o, v)  == CHOOSE i \in 1..Len(o.base) : o.base[i] = v
+SScaleVerdict(o) ==
+    LET NN == ScN(o)  n == Len(o.base)
+        xs == [p \in 1..NN |-> o.base[ScSrc(o.layout, n, o.k, p)]] IN
+    IF \E i, j \in 1..n : o.basecmp[i][j][1] \notin {-1, 0, 1} \/ ~PinOK(o.basecmp[i][j][1], o.base[i], o.base[j]) \/ o.basecmp[i][j][1] # -o.basecmp[j][i][1]
+        THEN "cmp_pinned_value_in_sort"
+    ELSE IF o.raised # "" THEN "sort_raises"
+    ELSE IF o.after # xs THEN "sort_operand_changed"
+    ELSE IF Len(o.out) # NN \/ \E p \in 1..Len(o.out) : \A i \in 1..n : o.base[i] # o.out[p] THEN "sort_not_a_permutation"
+    ELSE IF \E i \in 1..n : Cardinality({p \in 1..NN : o.out[p] = o.base[i]}) # o.k THEN "sort_not_a_permutation"
+    ELSE IF \E p \in 1..(NN - 1) : o.basecmp[ScIdx(o, o.out[p])][ScIdx(o, o.out[p + 1])][1] > 0 THEN "sort_not_nondecreasing"
+    ELSE IF ~o.same THEN "sort_depends_on_earlier_calls"
+    ELSE ""
+
 CallVerdict(o) ==
     CASE o.kind = "cmprow" -> RowVerdict(o.i)
       [] o.kind = "cmprow2" -> RowVerdictOf(Mat2, o.i)
@@ -71,6 +135,7 @@ CallVerdict(o) ==
            IF o.raised # "" THEN "sort_raises"
            ELSE IF o.after # o.xs THEN "sort_operand_changed"
            ELSE IF ~IsPerm(o.xs, o.out) THEN "sort_not_a_permutation"
+           ELSE IF \E k \in 1..Len(o.adj) : ~PinOK(o.adj[k], o.out[k], o.out[k + 1]) THEN "cmp_pinned_value_in_sort"
            ELSE IF \E k \in 1..Len(o.adj) : o.adj[k] \notin {-1, 0} THEN "sort_not_nondecreasing"
            ELSE IF \E k \in 1..Len(o.far) : o.far[k][3] \notin {-1, 0} THEN "sort_not_nondecreasing_far"
            ELSE ""
@@ -78,6 +143,8 @@ CallVerdict(o) ==
            IF o.raised # "" THEN "dsort_raises"
            ELSE IF o.after # o.rows THEN "dsort_operand_changed"
            ELSE IF ~RowsPerm(o.rows, o.out) THEN "dsort_not_a_permutation"
+           ELSE IF \E p \in 1..Len(o.colcmp) : \E k \in 1..Len(o.colcmp[p]) : ~PinOK(o.colcmp[p][k], o.out[p][o.keycols[k]], o.out[p + 1][o.keycols[k]])
+                THEN "cmp_pinned_value_in_sort"
            ELSE IF ~OrderedBy(DsortCmp(o)) /\ ~OrderedBy(DsortRefined(o)) THEN "dsort_not_ordered"
            ELSE IF ~(OrderedBy(DsortCmp(o)) /\ StableBy(o, DsortCmp(o))) /\ ~(OrderedBy(DsortRefined(o)) /\ StableBy(o, DsortRefined(o))) THEN "dsort_not_stable"
            ELSE IF ~o.again THEN "dsort_not_idempotent"
@@ -87,6 +154,8 @@ CallVerdict(o) ==
            ELSE IF o.after # o.rows THEN "dsortval_operand_changed"
            ELSE IF ~IsByValueOrder(o.orders, o.rows, o.out) THEN (IF OrdersHaveDup(o.orders) THEN "dsortval_order_dup" ELSE "dsortval_order")
            ELSE ""
+      [] o.kind = "dscale" -> DScaleVerdict(o)
+      [] o.kind = "sscale" -> SScaleVerdict(o)
       [] OTHER -> "unknown_kind"
 
 \* ---- sessions ---------------------------------------------------------------------------------------
@@ -99,12 +168,25 @@ AsCall(S, st, ob) ==
       [] st.op = "listsort" -> [kind |-> "sort", xs |-> S.lsts[st.lst], raised |-> ob.raised, out |-> ob.out, adj |-> ob.adj, far |-> ob.far,
                                 after |-> ob.lsts[st.lst]]
 \* the heap after the step: a call allocates what it returned (judged lawful before), an edit is the caller's own action
-Tracked(S, st, ob) == IF st.op = "listsort" THEN NewList(S, ob.out)
+\* cmp over a sample of the universe at this point of the history: ob.idx = indices into Mat.vals, ob.M = the entries observed NOW
+SampleMat(ob) == [vals |-> [k \in 1..Len(ob.idx) |-> Mat.vals[ob.idx[k]]], M |-> ob.M]
+SampleVerdict(ob) ==
+    LET sm == SampleMat(ob)
+        bad == {i \in 1..Len(ob.idx) : RowClauseOf(sm, i) # ""} IN
+    IF bad # {} THEN RowClauseOf(sm, Pick(bad))
+    ELSE IF \E p, q \in 1..Len(ob.idx) : ob.M[p][q] # Mat.M[ob.idx[p]][ob.idx[q]] THEN "cmp_depends_on_earlier_calls"      \* a call has no memory
+    ELSE ""
+Tracked(S, st, ob) == IF st.op \in {"raise", "cmps"} THEN S
+                      ELSE IF st.op = "listsort" THEN NewList(S, ob.out)
                       ELSE IF IsCall(st) THEN NewTable(S, ob.out)
                       ELSE IF st.op = "setcol" THEN EditTable(S, st) ELSE EditList(S, st)
 StepVerdict(S, st, ob) ==
     LET T == Tracked(S, st, ob) IN
     IF ~Enabled(S, st) THEN "sess_step_not_enabled"                \* the generator and this specification disagree: machinery
+    ELSE IF st.op = "raise" THEN           \* OutsideDomain: raising or not, and with which class, is not the statement's business
+        IF ob.tabs # S.tabs \/ ob.lsts # S.lsts THEN "sess_raising_call_changes_caller_object" ELSE ""
+    ELSE IF st.op = "cmps" THEN
+        IF ob.tabs # S.tabs \/ ob.lsts # S.lsts THEN "sess_call_changes_caller_object" ELSE SampleVerdict(ob)
     ELSE IF IsCall(st) THEN
         LET v == CallVerdict(AsCall(S, st, ob)) IN
         IF v # "" THEN v
